@@ -1158,6 +1158,23 @@ func (l *Ledger) Truncate(utxovmLastID []byte) error {
 		}
 	}
 
+	// the target becomes the tip: its next link must not keep pointing at a removed block.
+	// A copy is saved, and dropped from the header cache again if the batch is not written.
+	written := false
+	if len(block.NextHash) > 0 {
+		tipBlock := proto.Clone(block).(*pb.InternalBlock)
+		tipBlock.NextHash = []byte{}
+		defer func() {
+			if !written {
+				l.blkHeaderCache.Del(string(tipBlock.Blockid))
+			}
+		}()
+		if err = l.saveBlock(tipBlock, batchWrite); err != nil {
+			l.xlog.Warn("failed to save the new tip block", "err", err)
+			return err
+		}
+	}
+
 	newMeta.TrunkHeight = block.Height
 	metaBuf, err := proto.Marshal(newMeta)
 	if err != nil {
@@ -1170,6 +1187,7 @@ func (l *Ledger) Truncate(utxovmLastID []byte) error {
 		l.xlog.Warn("batch write failed when truncate", "err", err)
 		return err
 	}
+	written = true
 	l.meta = newMeta
 
 	l.xlog.Info("truncate blockid succeed")
